@@ -181,7 +181,12 @@ class ExprMixin:
                 all(isinstance(v_, ast.Lambda) or (dotted(v_) or '').split('.')[-1] in
                     ('max', 'min', 'abs', 'sum', 'len', 'floor', 'ceil', 'sin', 'cos', 'real', 'imag', 'sqrt', 'maximum', 'minimum')
                     for v_ in val.elts)
-            if seq_of_callables or isinstance(val, ast.Dict) and val.keys and all(k is not None and isinstance(k, ast.Constant) for k in val.keys) and \
+            def nested_table(d_):
+                # {key: {key: function}}: a dispatch table with two keys
+                return isinstance(d_, ast.Dict) and d_.keys and all(k is not None and isinstance(k, ast.Constant) for k in d_.keys) and \
+                    all((isinstance(v_, ast.Name) and v_.id in m.functions) or isinstance(v_, ast.Lambda) or nested_table(v_)
+                        for v_ in d_.values)
+            if seq_of_callables or nested_table(val) or isinstance(val, ast.Dict) and val.keys and all(k is not None and isinstance(k, ast.Constant) for k in val.keys) and \
                     all(isinstance(v_, (ast.Lambda, ast.Name, ast.Attribute)) for v_ in val.values) and \
                     (any(isinstance(v_, ast.Lambda) for v_ in val.values) or
                      all(isinstance(v_, ast.Name) and v_.id in m.functions for v_ in val.values)):
